@@ -176,6 +176,8 @@ pub struct ChanRun {
     pub quiescence_tick: u64,
     /// after drain + release of everything: how many of BUFFER_SIZE+1 further sends were accepted (None: not probed)
     pub capacity_probe: Option<u32>,
+    /// events found in the queues of vacant stream ids by fresh listeners (see `Epilogue::recycle_drain`)
+    pub stale_after_recycling: Vec<u64>,
     pub ledger:    Vec<(u64, u32)>,
     pub ledger_corrupt: u32,
     /// number of producer threads
@@ -263,6 +265,9 @@ pub struct Epilogue {
     pub capacity_probe: bool,
     /// after dropping every stream: running_streams_count must be 0 and MAX_STREAMS new streams can be created
     pub recreate_probe: bool,
+    /// before the capacity probe: take every vacant stream id with a fresh listener, poll it dry (releasing whatever a departed listener's queue
+    /// still holds) and drop it again; what they yielded is reported in `stale_after_recycling`
+    pub recycle_drain: bool,
 }
 
 pub fn execute(case: &ChanCase, epi: Epilogue) -> ChanRun {
@@ -294,7 +299,7 @@ pub fn execute(case: &ChanCase, epi: Epilogue) -> ChanRun {
             payload::set_current_ledger(None);
             return ChanRun { end: match end { EndState::Stall { .. } => EndState::Stall { stuck: vec![(n_prod + n_cons, 0)], parked: vec![] }, other => other }, trace: vec![], inside: 0,
                 ends: vec![], sends: vec![], polls: vec![], releases: vec![], lens: vec![], cancels: vec![], consumers: vec![ConsumerEnd::default(); n_cons], wakes: vec![vec![]; n_cons], dead_waker_uses: 0, dead_waker_uses_superseded: 0, marks: vec![],
-                prefill: vec![], pending_at_quiescence: 0, running_at_quiescence: 0, quiescence_tick: 0, capacity_probe: None, ledger: vec![], ledger_corrupt: 0, n_producers: n_prod, open_after: None,
+                prefill: vec![], pending_at_quiescence: 0, running_at_quiescence: 0, quiescence_tick: 0, capacity_probe: None, stale_after_recycling: vec![], ledger: vec![], ledger_corrupt: 0, n_producers: n_prod, open_after: None,
                 prefill_rejected: false, cur_ops: { let mut v = vec![String::new(); n_prod + n_cons]; v.push("set-up (create channel / streams / prefill)".into()); v }, running_after_drop: None, recreate: None };
         },
     };
@@ -338,7 +343,7 @@ pub fn execute(case: &ChanCase, epi: Epilogue) -> ChanRun {
         end: outcome.end.clone(), trace: outcome.trace, inside: outcome.switches_inside_ops,
         ends: vec![], sends: vec![], polls: vec![], releases: vec![], lens: vec![], cancels: vec![], consumers: vec![],
         wakes: outcome.wakes[n_prod..].to_vec(), dead_waker_uses: outcome.dead_waker_uses, dead_waker_uses_superseded: outcome.dead_waker_uses_superseded, marks: outcome.marks.clone(), prefill,
-        pending_at_quiescence: 0, running_at_quiescence: 0, quiescence_tick, capacity_probe: None,
+        pending_at_quiescence: 0, running_at_quiescence: 0, quiescence_tick, capacity_probe: None, stale_after_recycling: vec![],
         ledger: vec![], ledger_corrupt: 0, n_producers: n_prod, open_after: None, prefill_rejected, cur_ops: vec![], running_after_drop: None, recreate: None,
     };
     if outcome.end != EndState::Completed {
@@ -427,6 +432,24 @@ pub fn execute(case: &ChanCase, epi: Epilogue) -> ChanRun {
         }
     }
     let _ = &mut tick;
+    if epi.recycle_drain && epi.capacity_probe && !suspended_for_ever {
+        let c2 = Arc::clone(&chan);
+        let max = case.max_streams as u32;
+        let res = crate::sched::guarded(20_000, move || {
+            let waker = noop_waker();
+            let mut fresh = LeakOnUnwind::new(vec![]);
+            let mut stale = vec![];
+            while c2.running() < max && fresh.len() < max as usize {
+                let mut s = c2.create_stream();
+                let mut n = 0;
+                while let Poll::Ready(Some(it)) = s.poll(&waker) { stale.push(it.val()); drop(it); n += 1; if n > 64 { break; } }
+                fresh.push(s);
+            }
+            drop(fresh.take());
+            stale
+        });
+        if let Ok(stale) = res { run.stale_after_recycling = stale; }
+    }
     if epi.capacity_probe && !suspended_for_ever {
         let c2 = Arc::clone(&chan);
         let n = case.buffer as u32 + 1;
